@@ -1,0 +1,75 @@
+//go:build verif
+
+package agwpe
+
+import (
+	"bytes"
+	"io"
+	"net"
+)
+
+// Exports for the verification harness in /verif. Compiled only with -tags verif.
+
+// VerifFrame is a frame with exported fields.
+type VerifFrame struct {
+	Port     uint8
+	Kind     byte
+	PID      uint8
+	From, To [10]byte
+	DataLen  uint32
+	Data     []byte
+}
+
+func (v VerifFrame) frame() frame {
+	return frame{header: header{Port: v.Port, DataKind: kind(v.Kind), PID: v.PID, From: callsign(v.From), To: callsign(v.To), DataLen: v.DataLen}, Data: v.Data}
+}
+
+func verifFrom(f frame) VerifFrame {
+	return VerifFrame{Port: f.Port, Kind: byte(f.DataKind), PID: f.PID, From: [10]byte(f.From), To: [10]byte(f.To), DataLen: f.DataLen, Data: f.Data}
+}
+
+// VerifEncode serialises a frame with frame.WriteTo.
+func VerifEncode(v VerifFrame) []byte {
+	var buf bytes.Buffer
+	v.frame().WriteTo(&buf)
+	return buf.Bytes()
+}
+
+// VerifReadFrame reads one frame with frame.ReadFrom.
+func VerifReadFrame(r io.Reader) (VerifFrame, error) {
+	var f frame
+	_, err := f.ReadFrom(r)
+	return verifFrom(f), err
+}
+
+// VerifNewTNC starts a TNC on an established connection.
+func VerifNewTNC(conn net.Conn) *TNC { return newTNC(conn) }
+
+// VerifConnectedDataFrame etc. expose the frame constructors.
+func VerifConstructors(port uint8, from, to string, digis []string, data []byte) map[string]VerifFrame {
+	return map[string]VerifFrame{
+		"data":        verifFrom(connectedDataFrame(port, from, to, data)),
+		"outstanding": verifFrom(outstandingFramesForConnFrame(port, from, to)),
+		"register":    verifFrom(registerCallsignFrame(from, port)),
+		"unregister":  verifFrom(unregisterCallsignFrame(from, port)),
+		"connect":     verifFrom(connectFrame(from, to, port, digis)),
+		"disconnect":  verifFrom(disconnectFrame(from, to, port)),
+		"unproto":     verifFrom(unprotoInformationFrame(from, to, port, data)),
+		"caps":        verifFrom(portCapabilitiesFrame(port)),
+	}
+}
+
+// VerifWant evaluates framesFilter.Want.
+func VerifWant(kinds []byte, port *uint8, call, to string, f VerifFrame) bool {
+	flt := framesFilter{port: port}
+	for _, k := range kinds {
+		flt.kinds = append(flt.kinds, kind(k))
+	}
+	if call != "" {
+		flt.call = callsignFromString(call)
+	}
+	if to != "" {
+		flt.to = callsignFromString(to)
+	}
+	return flt.Want(f.frame())
+}
